@@ -533,6 +533,11 @@ impl<S: Storage> Builder<S> {
             .register(id, span.clone(), output_row_counter.clone());
 
         let (tx, rx) = async_broadcast::broadcast(16);
+        // Deactivate the receiver *before* the producer task exists: on a multi-thread runtime the task
+        // may start broadcasting at once, and chunks sent while the original receiver is still active are
+        // skipped by receivers activated later (the statement would silently lose rows). With only
+        // inactive receivers the producer waits until a consumer subscribes.
+        let rx = rx.deactivate();
         #[cfg(feature = "verif")]
         let verif_op = name.split_whitespace().next().unwrap_or("").trim_matches(|c| c == '(' || c == ')').to_string();
         // (gates inside the operator are attributed to the session that built the plan; an armed fault
@@ -574,7 +579,7 @@ impl<S: Storage> Builder<S> {
             .expect("failed to spawn task");
 
         StreamSubscriber {
-            rx: rx.deactivate(),
+            rx,
             handle: Arc::new(AbortOnDropHandle(handle)),
         }
     }
